@@ -299,6 +299,7 @@ _c01, _c02, _c03, _c04, _c05, _c06, _c07, _c08, _c16 = c01, c02, c03, c04, c05, 
 c03 = with_shared(_c03, [(_c16, {'C16.O1': 'C03.j'}, 'a routine record is complete (final frame size, argument count, stack map) whenever a call can read it: records are written only when a routine is finished'),
                          (_c04, {'C04.e': 'C03.k'}, 'marks are resolved within the routine that uses them and a jump to a mark that routine does not define is rejected, so every jump lands inside its own routine')])
 c01 = with_shared(_c01, [(_c03, {'C03.f': 'C01.h'}, 'a call binds the record of the routine registered under that name; the latest definition is registered by assignment'),
+                         (_c04, {'C04.e': 'C01.k'}, 'a GOTO / IF..GOTO jumps to the mark of that name in its own program: marks are kept per routine and a mark the routine does not define is rejected'),
                          (c17, {'C17.Z1': 'C01.j'}, 'a reset machine is in the constructor state, so a run after reset() computes what the first run computes'),
                          (c10, {'C10.a': 'C01.i', 'C10.d': 'C01.i2'}, 'macro temporaries of different expansions never coincide, so expansion preserves the meaning of nested macro uses')])
 c02 = with_shared(_c02, [(c15, {'C15.I4': 'C02.g', 'C15.I6': 'C02.g2'}, 'scanning terminates: no hang on include cycles'),
@@ -308,12 +309,17 @@ c02 = with_shared(_c02, [(c15, {'C15.I4': 'C02.g', 'C15.I6': 'C02.g2'}, 'scannin
 c04 = with_shared(_c04, [(c20, {'C20.A2': 'C04.f', 'C20.A3': 'C04.f2'}, 'every literal that reaches an instruction is range-checked'),
                          (c14, {'C14.L2': 'C04.g'}, 'the terminals have their documented lexical form')])
 c05 = with_shared(_c05, [(c08, {'C08.a': 'C05.f', 'C08.b': 'C05.f2', 'C08.c': 'C05.f3'}, 'the sites the VM rewrites are exactly the POTENTIAL_BREAK instructions the generator listed')])
-c06 = with_shared(_c06, [(_c05, {'C05.b': 'C06.f'}, 'break handlers advance by exactly one instruction, so no site is skipped and the location lookup finds the site just passed')])
+c06 = with_shared(_c06, [(_c05, {'C05.b': 'C06.f'}, 'break handlers advance by exactly one instruction, so no site is skipped and the location lookup finds the site just passed'),
+                         (_c08, {'C08.a': 'C06.g', 'C08.b': 'C06.g2'}, 'the site armed for a location is the marker emitted for that location and line_info names the same location for it, so a stop is reported at the line that was enabled')])
 c07 = with_shared(_c07, [(c08, {'C08.a': 'C07.i'}, 'a site is created (and listed) on every call of breakpoint()'),
                          (_c03, {'C03.f': 'C07.j'}, 'a call enters the routine of the latest definition under that name, so the lines visited and the variables listed are those of the routine the source calls')])
-c08 = with_shared(_c08, [(_c06, {'C06.b': 'C08.f', 'C06.c': 'C08.f2'}, 'the VM never adds a location: enable/clear only touch listed locations'),
+c08 = with_shared(_c08, [(_c06, {'C06.b': 'C08.f', 'C06.c': 'C08.f2', 'C06.e': 'C08.g'}, 'the VM never adds a location: enable/clear only touch listed locations; locations are keyed by an order that keeps distinct (file, line) pairs apart'),
                          (_c05, {'C05.a': 'C08.f3'}, 'the VM writes only opcodes at listed sites')])
 c16 = with_shared(_c16, [(c17, {'C17.Z1': 'C16.O4'}, 'a reset machine has no activations, so the activation bound also holds across resets')])
+_c19 = c19
+c19 = with_shared(_c19, [(c17, {'C17.Z1': 'C19.F4'}, 'reset() returns the data memory and the activation stack to the constructor state: frames of calls that were pending at the reset are released'),
+                         (_c03, {'C03.g': 'C19.F5'}, 'every jump of compiled code is resolved to a label of its own routine, so an activation that was entered is left through its RET and its frame is released'),
+                         (_c04, {'C04.e': 'C19.F6'}, 'marks are resolved per routine and unknown marks rejected: no jump leaves a routine without returning')])
 
 
 CHECKS = {
